@@ -32,6 +32,21 @@ type vtsStep struct {
 	} `json:"obs"`
 }
 
+// order-preserving map of the specification's priorities onto the whole uint64 range
+func vtsPrio(p uint64) uint64 {
+	switch p {
+	case 0:
+		return 0
+	case 1:
+		return 1
+	case 2:
+		return 1 << 62
+	case 3:
+		return 1<<63 + 5
+	}
+	return ^uint64(0)
+}
+
 func vtsExt(id int) types.Extrinsic { return types.Extrinsic{0x7e, byte(id), byte(id >> 8), 0x51} }
 
 func vtsID(e types.Extrinsic) int {
@@ -88,7 +103,7 @@ func TestVerifTxState(t *testing.T) {
 			res.Case(o.Op, where)
 			got := 0
 			pm := vTry(func() {
-				vt := transaction.NewValidTransaction(vtsExt(o.Tx), &transaction.Validity{Priority: o.Prio})
+				vt := transaction.NewValidTransaction(vtsExt(o.Tx), &transaction.Validity{Priority: vtsPrio(o.Prio)})
 				switch o.Op {
 				case "Push":
 					if _, err := ts.Push(vt); err == nil {
